@@ -149,7 +149,7 @@ Judgement(tt, rr) ==
       seen == Reparse(v.out)                      \* the acknowledgement as any reader sees it
       verdict == valid /\ ErrCount(tt) = 0
   IN [judged |-> TRUE, hasgroup |-> tt.gs # 0, crashed |-> tt.crashed, verdict |-> verdict, errcount |-> ErrCount(tt), nack |-> Len(seen),
-      f5 |-> IF tt.gs = 0 \/ tt.crashed THEN {} ELSE C05Fails(h, rr, seen, verdict, Ver, Truncated(seen)),
+      f5 |-> IF tt.gs = 0 \/ tt.crashed THEN {} ELSE C05Fails(h, rr, seen, verdict, Ver, TruncatedInBlocks(seen)),
       f6 |-> IF tt.gs = 0 \/ tt.crashed THEN {} ELSE C06Fails(seen, Ver, RereadModel(seen), RevalModel(seen), h, rr),
       plain |-> \A i \in 1..Len(rr) : ValClass(rr[i].val) = "plain",
       preserved |-> TextPreserved(v.out)]
@@ -175,7 +175,7 @@ Explained5(f) ==
                                          \/ (f.d1 = "absent" /\ f.d3 = "reported_without_add_ele")
     [] OTHER -> FALSE
 Explained6(f) ==
-  CASE f.c = "complete" -> f.d1 = "ele_error_on_ST_SE"
+  CASE f.c = "complete" -> f.d1 \in {"ele_error_on_ST_SE", "ele_error_on_ISA_IEA"}
     [] f.c = "revalidate_selects_ack_map" -> Ver = "4010"
     [] f.c \in {"se_count", "structure_preserved_by_echo", "reread_clean"} -> f.d1 \in {"TERM", "ELE", "SUB"} \/ f.d3 \in {"TERM", "ELE", "SUB"}
     [] OTHER -> FALSE
